@@ -315,6 +315,20 @@ func checkBLS(t vlib.TB, f blsFmt, b []byte, kind string, valid bool, orig blsPo
 		return
 	}
 	accepted := err == nil
+	if cs := f.g.CoordSize(); len(b) == 2*cs && b[0]&0x80 != 0 {
+		// Compression flag on a buffer of the uncompressed length: G1/G2.SetBytes read this as a compressed
+		// encoding followed by trailing bytes, which they tolerate by documented (unit-tested: TestG1Serial/badLength)
+		// behaviour. Trailing bytes are outside C09's exact-length quantifier, so the verdict on the whole buffer is
+		// only counted; the oracle is applied to the 48/96-byte prefix the decoder actually consumed.
+		acc := "rejected"
+		if accepted {
+			acc = "accepted"
+		}
+		vlib.Class(sub, "compressed-flag+trailing-bytes (outside the exact-length domain; counted only): "+acc)
+		b = b[:cs]
+		kind += "/prefix"
+		valid = false
+	}
 	ref := decode.BLSDecode(f.g, b)
 	outcome(sub, kind, valid, accepted, ref.OK, b)
 	vlib.Class(sub, "ref-stage="+ref.Stage)
@@ -449,14 +463,14 @@ func TestC09BLSKeys(t *testing.T) {
 	defer vlib.Done()
 	selftest(t)
 	t.Run("G1", func(t *testing.T) {
-		vlib.Check(t, vlib.N(350, 2500), func(t *rapid.T) {
+		vlib.Check(t, vlib.N(350, 2000), func(t *rapid.T) {
 			kind := rapid.SampledFrom(blsKinds).Draw(t, "kind")
 			b, valid := genBLSKey[sbls.G1](t, blsFmts[0], kind)
 			checkBLSKey[sbls.G1](t, blsFmts[0], b, kind, valid)
 		})
 	})
 	t.Run("G2", func(t *testing.T) {
-		vlib.Check(t, vlib.N(350, 2500), func(t *rapid.T) {
+		vlib.Check(t, vlib.N(350, 2000), func(t *rapid.T) {
 			kind := rapid.SampledFrom(blsKinds).Draw(t, "kind")
 			b, valid := genBLSKey[sbls.G2](t, blsFmts[1], kind)
 			checkBLSKey[sbls.G2](t, blsFmts[1], b, kind, valid)
@@ -563,9 +577,9 @@ func TestC09BLSSignatures(t *testing.T) {
 	defer vlib.Done()
 	selftest(t)
 	t.Run("KeyG1SigG2", func(t *testing.T) {
-		vlib.Check(t, vlib.N(120, 900), func(t *rapid.T) { checkBLSSig[sbls.G1](t, blsFmts[1], "KeyG1SigG2") })
+		vlib.Check(t, vlib.N(120, 600), func(t *rapid.T) { checkBLSSig[sbls.G1](t, blsFmts[1], "KeyG1SigG2") })
 	})
 	t.Run("KeyG2SigG1", func(t *testing.T) {
-		vlib.Check(t, vlib.N(120, 900), func(t *rapid.T) { checkBLSSig[sbls.G2](t, blsFmts[0], "KeyG2SigG1") })
+		vlib.Check(t, vlib.N(120, 600), func(t *rapid.T) { checkBLSSig[sbls.G2](t, blsFmts[0], "KeyG2SigG1") })
 	})
 }
